@@ -13,6 +13,7 @@ import (
 	"github.com/gittuf/gittuf/pkg/githash"
 	"github.com/gittuf/gittuf/pkg/gitstore"
 	"github.com/gittuf/gittuf/pkg/rsl"
+	"github.com/gittuf/gittuf/verifsim/gitx"
 	"github.com/gittuf/gittuf/verifsim/sched"
 	"github.com/gittuf/gittuf/verifsim/simstore"
 )
@@ -550,4 +551,61 @@ func RecordEntryNoNumber(st gitstore.Storer, ref, target string) error {
 // VerifyMergeable runs the mergeability prediction through the real verifier.
 func VerifyMergeable(st gitstore.Storer, target, feature string) (bool, error) {
 	return policy.NewPolicyVerifier(st).VerifyMergeable(context.Background(), target, feature)
+}
+
+// WalkRSLGit is WalkRSL for a real git repository, read with one `git log`
+// over raw commit headers (not through gitinterface or rsl).
+func WalkRSLGit(r *gitx.Repo, ref string) ([]*RawEntry, string) {
+	tip := r.GetRef(ref)
+	if tip == "" {
+		return nil, ""
+	}
+	out0, err := r.Git(nil, "log", "--first-parent", "--format=%H%x00%P%x00%B%x00%x01", tip)
+	if err != nil {
+		return nil, fmt.Sprintf("RSL unreadable: %v", err)
+	}
+	var rev []*RawEntry
+	problem := ""
+	for _, rec := range strings.Split(out0, "\x00\x01") {
+		rec = strings.TrimPrefix(rec, "\n")
+		if rec == "" {
+			continue
+		}
+		f := strings.SplitN(rec, "\x00", 3)
+		if len(f) != 3 {
+			continue
+		}
+		parents := strings.Fields(f[1])
+		e := ParseRaw(f[0], &simstore.CommitObj{Parents: parents, Message: f[2]})
+		rev = append(rev, e)
+		if !e.Valid && problem == "" {
+			problem = fmt.Sprintf("entry %s is not a well-formed RSL entry", short(f[0]))
+		}
+		if len(parents) > 1 && problem == "" {
+			problem = fmt.Sprintf("entry %s has %d parents", short(f[0]), len(parents))
+		}
+	}
+	out := make([]*RawEntry, len(rev))
+	for i := range rev {
+		out[len(rev)-1-i] = rev[i]
+	}
+	for i, e := range out {
+		var prev uint64
+		if i > 0 {
+			prev = out[i-1].Number
+		}
+		if problem != "" {
+			break
+		}
+		if e.Number == 0 {
+			if prev != 0 {
+				problem = fmt.Sprintf("unnumbered entry %s follows numbered entry", short(e.ID))
+			}
+			continue
+		}
+		if e.Number != prev+1 {
+			problem = fmt.Sprintf("entry %s has number %d after %d", short(e.ID), e.Number, prev)
+		}
+	}
+	return out, problem
 }
